@@ -226,3 +226,15 @@ func init() {
 		return iface{}
 	}
 }
+
+func init() {
+	// fx gov SubmitProposal marshals the stored proposal only to charge gas by its length; the
+	// wire size is not modelled: a fixed-length opaque byte string.
+	externals["(*github.com/cosmos/cosmos-sdk/x/gov/types/v1.Proposal).Marshal"] = func(fr *frame, args []value) value {
+		out := make([]value, 128)
+		for j := range out {
+			out[j] = uint8(0)
+		}
+		return tuple{out, iface{}}
+	}
+}
